@@ -21,7 +21,8 @@ QUICK = ck.tier == "quick"
 T0 = time.time()
 
 SUPPORT = ["MirVerif.Model.PPExpr", "MirVerif.Model.PPMacro", "MirVerif.Model.PPMacroUnit",
-           "MirVerif.Lemmas.PPExpr", "MirVerif.Lemmas.PPMacro", "MirVerif.Lemmas.PPMacroFuel"]
+           "MirVerif.Lemmas.PPExpr", "MirVerif.Lemmas.PPMacro", "MirVerif.Lemmas.PPMacroFuel",
+           "MirVerif.Lemmas.PPNumber"]
 proof_ok = ck.proof_gate(["MirVerif.Props.C09"], support_modules=SUPPORT, exes=["mirdrv_c09"])
 
 # ------------------------------------------------------------------ builds from the current tree
@@ -854,6 +855,27 @@ run_family("macro-random", NA, lambda: G.MacroGen(ck.rng))
 run_family("stringify-direct", NB, lambda: G.StrGen(ck.rng))
 run_family("sharp-then-param", NC, lambda: G.SharpGen(ck.rng))
 run_family("conditional-with-macros", NE, lambda: G.CondGen(ck.rng))
+
+# pp-numbers: the tokenizer of this check against the Lean maximal-munch function, then the three-way comparison
+_ppn_chunks = []
+
+
+def _mk_ppnum():
+    g_ = G.PPNumGen(ck.rng)
+    _ppn_chunks.append(g_)
+    return g_
+
+
+run_family("pp-number-glue", 800 if QUICK else 8000, _mk_ppnum)
+_chunks = sorted({c for g_ in _ppn_chunks for c in g_.chunks})
+_, _out, _ = run_limited([DRV, "ppnum"], "".join(G.hx(c) + "\n" for c in _chunks), timeout=120)
+_lens = _out.split()
+_bad = [(c, l) for c, l in zip(_chunks, _lens)
+        if int(l) != (G._NUM.match(c).end() if G._NUM.match(c) else 0)] if len(_lens) == len(_chunks) else [("protocol", "")]
+if _bad:
+    ck.broken_ties.append({"kind": "correspondence", "name": "tokenizer of the check vs ppNumberLen (Lean, 6.4.8 maximal munch)",
+                           "first_diff": _bad[:3]})
+stats["ppnumber_spellings_vs_lean"] = len(_chunks)
 
 run_family("stringified-paste-empty-operand", 800 if QUICK else 8000, lambda: G.StrPasteGen(ck.rng))
 
